@@ -578,19 +578,19 @@ func Run(cfg hx.Config) error {
 	}
 	e.rpmCaretWitness()
 	e.archOps(cfg.N(300, 3000))
-	e.rpmCompareOps(cfg.N(6000, 400000))
+	e.rpmCompareOps(cfg.N(6000, 250000))
 	e.rpmMatcherOps(cfg.N(40, 2000))
 	e.freeRpmMatcherOps(cfg.N(1500, 60000))
 	e.debWitness()
-	e.debCompareOps(cfg.N(5000, 300000))
+	e.debCompareOps(cfg.N(5000, 180000))
 	e.debMatcherOps(cfg.N(40, 2000))
-	e.apkCompareOps(cfg.N(5000, 300000))
+	e.apkCompareOps(cfg.N(5000, 180000))
 	e.apkMatcherOps(cfg.N(40, 2000))
 	e.rangeOps(cfg.N(1500, 150000))
-	e.ctlOps(cfg.N(25, 2500))
+	e.ctlOps(cfg.N(25, 1500))
 	e.urlQueryOps(cfg.N(600, 20000))
-	e.osvMatcherOps(cfg.N(30, 3000))
-	e.osvFreeOps(cfg.N(1500, 150000))
+	e.osvMatcherOps(cfg.N(30, 2000))
+	e.osvFreeOps(cfg.N(1500, 100000))
 	if err := e.flushPending(); err != nil {
 		return err
 	}
